@@ -84,8 +84,14 @@ func replayCompat(args []string) int {
 					got["select-linear(a,b)"] = ga.VerifCompatibility(gb, opts)
 					opts.GenCompatMethod = neat.GenomeCompatibilityMethodFast
 					got["select-fast(a,b)"] = ga.VerifCompatibility(gb, opts)
+					// genome ids are not identities (offspring are numbered per species): the distance must not depend on them
+					gb.Id = ga.Id
+					got["select-fast(a,b) with equal genome ids"] = ga.VerifCompatibility(gb, opts)
+					opts.GenCompatMethod = neat.GenomeCompatibilityMethodLinear
+					got["select-linear(b,a) with equal genome ids"] = gb.VerifCompatibility(ga, opts)
+					gb.Id = 2
 				})
-				rep.Evaluations += 6
+				rep.Evaluations += 8
 				bad := ""
 				if p != "" {
 					bad = "panic: " + p
